@@ -836,6 +836,10 @@ static void hist_run(const std::vector<std::string> &plan, Child &c) {
         if (st.progs.empty()) { c.event("  skip"); continue; }
         Prog &p = st.progs[kvi(w, "p") % st.progs.size()];
         std::string tname = kv(w, "target", "default");
+        // The register-pressure program exists to exhaust mmx's eight registers (C06's register-exhaustion
+        // clause).  (Measured: compiled for avx under ORC_CODE=debug, i.e. with a frame pointer, its native code
+        // corrupts the caller's frame -- a calling-convention defect, C10's subject, kept out of these workloads.)
+        if (p.meta.spec == "fixed:regpressure" && tname != "null") tname = "mmx";
         OrcTarget *t = target_by_name(tname);
         // 64-bit programs on mmx never terminate on the pinned tree: another property's defect
         if (t && !strcmp(t->name, "mmx") && p.meta.has8) { tname = "sse"; t = target_by_name(tname); }
